@@ -245,3 +245,184 @@ Definition oracle_ctx_reduce (k : acase) (o : obs) : list Z :=
       else flag (is_finite d && Bool.eqb (neg d) ng && value_eqb (coeff d) (exp d) m0 e0
                  && negb (coeff d mod 10 =? 0) && (o_extra o =? tz m0)) O_REDUCE
   end.
+
+(* ====================================================================================== *)
+(* C08: special operands                                                                   *)
+From Apd Require Import Spec.Specials.
+
+Definition O_SPECIAL := 40.
+Definition O_QUANTIZE := 41.
+Definition O_RTI := 42.
+Definition O_CEILFLOOR := 43.
+Definition O_QUOINT := 44.
+Definition O_REM := 45.
+Definition O_CMP := 46.
+Definition O_TOTAL := 47.
+
+Definition sop_of (o : op) : sop :=
+  match o with
+  | OAdd => SAdd | OSub => SSub | OMul => SMul | OQuo => SQuo | OQuoInteger => SQuoInteger | ORem => SRem
+  | OAbs => SAbs | ONeg => SNeg | ORound => SRound | OReduce => SReduce | OQuantize => SQuantize
+  | ORtiv | ORtie => SRti | OCeil | OFloor => SCeilFloor | OCmp => SCmp
+  end.
+
+Definition oracle_c08 (k : acase) (o : obs) : list Z :=
+  if system_err (o_err o) then [] else
+  match special_table (sop_of (a_op k)) (rounder_eqb (rounding (a_ctx k)) RFloor) (a_x k) (eff_y k) with
+  | Some e => flag (expect_ok e (o_dec o) (o_cond o)) O_SPECIAL
+  | None => []
+  end.
+
+(* ====================================================================================== *)
+(* C09: Quantize / RoundToIntegral / Ceil / Floor                                          *)
+
+Definition wf_case (k : acase) : bool :=
+  wf_ctx (a_ctx k) && wf_dec (a_x k) && (negb (is_binary (a_op k)) || wf_dec (eff_y k)).
+
+(* x / 10^e rounded to an integer: (integer, inexact) *)
+Definition quantize_int (mode : rounder) (x : dec) (e : Z) : Z * bool :=
+  let '(n1, d1) := scale_frac (coeff x) 1 (exp x - e) in
+  (rndZ mode (neg x) n1 d1, negb (n1 mod d1 =? 0)).
+
+Definition oracle_c09 (k : acase) (o : obs) : list Z :=
+  let c := a_ctx k in
+  let x := a_x k in
+  let d := o_dec o in
+  let f := o_cond o in
+  if negb (wf_case k) || negb (is_finite x) || system_err (o_err o) then [] else
+  match a_op k with
+  | OQuantize =>
+      let e := a_e k in
+      let '(q, inex) := quantize_int (rounding c) x e in
+      let invalid := (ndigits q >? prec c) || (e <? etiny c) || (e >? emax c)
+                     || (negb (q =? 0) && (e + ndigits q - 1 >? emax c)) in
+      if invalid then flag (form_eqb (form_of d) NaN && InvalidOperation f) O_QUANTIZE
+      else flag (is_finite d && Bool.eqb (neg d) (neg x) && (coeff d =? q) && (exp d =? e)
+                 && Bool.eqb (Inexact f) inex && (negb inex || Rounded f)
+                 && negb (Underflow f) && negb (Overflow f) && negb (InvalidOperation f)) O_QUANTIZE
+  | ORtiv | ORtie =>
+      let '(q, inex) := quantize_int (rounding c) x 0 in
+      if ndigits q - 1 >? emax c then [] else
+      flag (is_finite d && Bool.eqb (neg d) (neg x) && value_eqb (coeff d) (exp d) q 0
+            && (match a_op k with
+                | ORtiv => negb (Inexact f) && negb (Rounded f)
+                | _ => Bool.eqb (Inexact f) inex && (negb inex || Rounded f)
+                end)) O_RTI
+  | OCeil | OFloor =>
+      let mode := match a_op k with OCeil => RCeiling | _ => RFloor end in
+      let '(q, _) := quantize_int mode x 0 in
+      let '(t, _) := quantize_int RDown x 0 in
+      if (negb (prec c =? 0) && (ndigits t >? prec c)) || (ndigits q - 1 >? emax c) then [] else
+      flag (is_finite d && value_eqb (coeff d) (exp d) q 0
+            && ((q =? 0) || Bool.eqb (neg d) (neg x))) O_CEILFLOOR
+  | _ => []
+  end.
+
+(* ====================================================================================== *)
+(* C10: QuoInteger / Rem                                                                   *)
+
+Definition oracle_c10 (k : acase) (o : obs) : list Z :=
+  let c := a_ctx k in
+  let x := a_x k in
+  let y := eff_y k in
+  let d := o_dec o in
+  let f := o_cond o in
+  if negb (wf_case k) || negb (is_finite x && is_finite y) || (coeff y =? 0) || (prec c =? 0) then [] else
+  let m := Z.min (exp x) (exp y) in
+  if (Z.abs (exp x - exp y) >? MaxExponent) then flag (err_is_range (o_err o)) O_SYSLIMIT else
+  if system_err (o_err o) then [O_SYSLIMIT] else
+  let a := coeff x * 10 ^ (exp x - m) in
+  let b := coeff y * 10 ^ (exp y - m) in
+  let q := a / b in
+  let r := a mod b in
+  let impossible := ndigits q >? prec c in
+  match a_op k with
+  | OQuoInteger =>
+      if impossible then flag (form_eqb (form_of d) NaN && DivisionImpossible f) O_QUOINT
+      else flag (is_finite d && (coeff d =? q) && (exp d =? 0) && Bool.eqb (neg d) (xorb (neg x) (neg y))
+                 && negb (DivisionImpossible f) && negb (Inexact f)) O_QUOINT
+  | ORem =>
+      if impossible then flag (form_eqb (form_of d) NaN && DivisionImpossible f) O_REM
+      else if r =? 0 then flag (is_finite d && (coeff d =? 0) && Bool.eqb (neg d) (neg x) && negb (DivisionImpossible f) && negb (Inexact f)) O_REM
+      else
+        let s := spec_round_nz (prec c) (emin c) (emax c) (rounding c) (mkExact (neg x) r 1 m) in
+        flag (matches d (s_res s) && negb (DivisionImpossible f) && Bool.eqb (Inexact f) (s_inexact s)) O_REM
+  | _ => []
+  end.
+
+(* ====================================================================================== *)
+(* C15: exact comparison and the documented total order                                    *)
+
+(* sign of a - b for non-NaN a, b; independent of Model.dcmp *)
+Definition mag_cmp (c1 e1 c2 e2 : Z) : Z :=    (* compare c1*10^e1 with c2*10^e2, c1, c2 > 0 *)
+  if Z.abs (e1 - e2) <=? 1000 then
+    let m := Z.min e1 e2 in cmpZ (c1 * 10 ^ (e1 - m)) (c2 * 10 ^ (e2 - m))
+  else
+    let a1 := ndigits c1 + e1 in
+    let a2 := ndigits c2 + e2 in
+    if a1 <? a2 then -1 else if a1 >? a2 then 1 else
+    let m := Z.min e1 e2 in cmpZ (c1 * 10 ^ (e1 - m)) (c2 * 10 ^ (e2 - m)).
+
+Definition exact_cmp (a b : dec) : Z :=
+  let sgn (d : dec) := if is_finite d && (coeff d =? 0) then 0 else if neg d then -1 else 1 in
+  let sa := sgn a in
+  let sb := sgn b in
+  if sa <? sb then -1 else if sa >? sb then 1 else if sa =? 0 then 0 else
+  let ia := form_eqb (form_of a) Infinite in
+  let ib := form_eqb (form_of b) Infinite in
+  if ia && ib then 0 else if ia then sa else if ib then - sa else
+  sa * mag_cmp (coeff a) (exp a) (coeff b) (exp b).
+
+Definition oracle_c15_ctx (k : acase) (o : obs) : list Z :=
+  match a_op k with
+  | OCmp =>
+      let x := a_x k in
+      let y := eff_y k in
+      if is_nan x || is_nan y || system_err (o_err o) || negb (wf_dec x && wf_dec y) then [] else
+      let v := exact_cmp x y in
+      flag (is_finite (o_dec o) && (exp (o_dec o) =? 0) && (coeff (o_dec o) =? Z.abs v)
+            && ((v =? 0) || Bool.eqb (neg (o_dec o)) (v <? 0))) O_CMP
+  | _ => []
+  end.
+
+(* rank of the documented total order *)
+Definition total_rank (d : dec) : Z :=
+  let r := match form_of d with Finite => 1 | Infinite => 2 | NaNSignaling => 3 | NaN => 4 end in
+  if neg d then - r else r.
+(* expected CmpTotal; None = unspecified by the documentation (NaN payload order) *)
+Definition total_spec (a b : dec) : option Z :=
+  let ra := total_rank a in
+  let rb := total_rank b in
+  if ra <? rb then Some (-1) else if ra >? rb then Some 1 else
+  match form_of a with
+  | Finite =>
+      let v := if (coeff a =? 0) && (coeff b =? 0) then 0
+               else if coeff a =? 0 then (if neg a then 1 else -1)
+               else if coeff b =? 0 then (if neg a then -1 else 1)
+               else (if neg a then -1 else 1) * mag_cmp (coeff a) (exp a) (coeff b) (exp b) in
+      if negb (v =? 0) then Some v
+      else Some ((if neg a then -1 else 1) * cmpZ (exp a) (exp b))
+  | Infinite => Some 0
+  | _ => None
+  end.
+
+Definition sgnZ (z : Z) : Z := if z <? 0 then -1 else if z >? 0 then 1 else 0.
+
+(* one triple (a, b, c) with the implementation's answers *)
+Definition judge_cmp (a b c : dec) (cab cbc cac tab tba tbc tac taa : Z) : list Z :=
+  let wf := wf_dec a && wf_dec b && wf_dec c in
+  let m (x y : dec) (v : Z) (f : dec -> dec -> res Z) := match f x y with Ok w => flag (w =? v) K_EXTRA | _ => [K_MODEL_PANIC] end in
+  m a b cab dcmp ++ m b c cbc dcmp ++ m a c cac dcmp
+  ++ m a b tab cmp_total ++ m b a tba cmp_total ++ m b c tbc cmp_total ++ m a c tac cmp_total ++ m a a taa cmp_total
+  ++ (if negb wf then [] else
+      let nn (x y : dec) (v : Z) := if is_nan x || is_nan y then [] else flag (v =? exact_cmp x y) O_CMP in
+      nn a b cab ++ nn b c cbc ++ nn a c cac
+      ++ (let ts (x y : dec) (v : Z) := match total_spec x y with Some w => flag (v =? w) O_TOTAL | None => [] end in
+          ts a b tab ++ ts b a tba ++ ts b c tbc ++ ts a c tac)
+      ++ flag (taa =? 0) O_TOTAL
+      ++ flag (tab =? - tba) O_TOTAL
+      ++ flag (negb ((tab <=? 0) && (tbc <=? 0)) || (tac <=? 0)) O_TOTAL
+      ++ flag (negb ((tab <=? 0) && (tbc <=? 0) && ((tab <? 0) || (tbc <? 0))) || (tac <? 0)) O_TOTAL
+      ++ flag (negb ((0 <=? tab) && (0 <=? tbc)) || (0 <=? tac)) O_TOTAL
+      ++ flag (Bool.eqb (tab =? 0) (form_eqb (form_of a) (form_of b) && Bool.eqb (neg a) (neg b)
+               && match form_of a with Finite => (coeff a =? coeff b) && (exp a =? exp b) | Infinite => true | _ => coeff a =? coeff b end)) O_TOTAL).
